@@ -1,7 +1,8 @@
 /-
   Line-protocol handler for the supervisor model.
     sup.run <act>*      acts: cC cS cL iS iR jD jT jX rl rc dv
-  →  sts=<digit per action> L=<d> closed=<0|1> dropped=<n> q=<n> pc=<i|l> deliv=<p>n,.. buf=<..> react=<..>
+  →  sts=<digit per action> L=<d> closed=<0|1> dropped=<n> q=<n> pc=<i|l> deliv=<p>n,.. buf=<..> react=<..> gen=<n> dwell=<n>
+  (jD / jT enqueue the event tagged with the generation / dwell current at that action, like TCPDown / T7Expired)
 -/
 import GoSecs.Model.Supervisor
 
@@ -30,7 +31,7 @@ def handle (cmd : String) (args : List String) : Option String :=
       | some acts =>
         let (c, sts) := runTrace init acts []
         let pc := match c.pc with | .idle => "i" | .loaded _ _ => "l"
-        s!"sts={String.join (sts.map toString)} L={c.lastReacted.toNat} closed={if c.closed then 1 else 0} dropped={c.dropped} q={c.queue.length} pc={pc} deliv={showPairs c.delivered} buf={showPairs c.notify} react={showPairs c.reactions}")
+        s!"sts={String.join (sts.map toString)} L={c.lastReacted.toNat} closed={if c.closed then 1 else 0} dropped={c.dropped} q={c.queue.length} pc={pc} deliv={showPairs c.delivered} buf={showPairs c.notify} react={showPairs c.reactions} gen={c.gen} dwell={c.dwell}")
   | _ => none
 
 end GoSecs.Drv.Supervisor
